@@ -763,6 +763,90 @@ def sweep_scenarios():
     return scs
 
 
+RESERVED_FOREIGN = ["models.ts", "schemas.ts", "bindings.ts", "types.d.ts", "index.d.ts", "api_generated.ts", "generated_x.ts",
+                    "types.ts", "commands.ts", "index.ts", ".typecache", "events.ts", "dependency-graph.txt"]
+
+
+def place_candidates(rng, files, dirs, all_of_them=False):
+    """Foreign files with reserved and near-miss names in every directory of dirs."""
+    for d in dirs:
+        names = RESERVED_FOREIGN if all_of_them else rng.sample(RESERVED_FOREIGN, rng.randint(3, 7))
+        for n in list(names) + ["notes.ts", "mytypes.ts"] + ([] if all_of_them else rng.sample(SYSTEMATIC, 2)):
+            files.setdefault(d + "/" + n, "foreign %s in %s" % (n, d))
+
+
+def below_root_scenarios(rng, count):
+    """Build-script (and CLI) runs from working directories BELOW the detected project root: the marker
+    (tauri.conf.json, or only the src-tauri directory with typegen.json beside it) sits one or two levels above the
+    crate the run starts in; relative and absolute output paths; foreign reserved-named files in every directory a
+    relative output path could be anchored at (<root>/<out>, <cwd>/<out>, <crate>/<out>). rng=None: the fixed sweep."""
+    scs = []
+    combos = [(cwd, kind, o) for cwd in ("app/src-tauri", "app/src-tauri/crates/core")
+              for kind in ("tauri", "typegen") for o in ("./gen", "out/ts", WORLD + "/app/bindings")]
+    for i in range(count if rng else len(combos)):
+        cwd, kind, o = combos[i] if not rng else rng.choice(combos)
+        r = rng or __import__("random").Random(i)
+        lib, viz = r.choice(["none", "zod"]), r.random() < 0.4
+        files = {}
+        if kind == "tauri":
+            files["app/tauri.conf.json"] = tauri_conf(".", o, lib, viz)
+        else:
+            files["app/typegen.json"] = json.dumps({"project_path": ".", "output_path": o, "validation_library": lib,
+                                                    "visualize_deps": viz})
+        rel = comps(o.replace(WORLD + "/", ""))
+        cands = ["/".join(rel)] if o.startswith(WORLD) else \
+            sorted({"/".join(comps(b) + rel) for b in ("app", cwd, "app/src-tauri")})
+        place_candidates(r, files, cands, all_of_them=not rng)
+        runs = []
+        variant = r.choice(["cmds", "events", "cmds2"])
+        for k in range(r.randint(1, 3) if rng else 3):
+            e = "build" if (k == 0 or r.random() < 0.7) else "generate"
+            runs.append({"entry": e, "variant": variant if k == 0 else r.choice([None, "nocmds", "cmds2", "events"]), "args": {}})
+        scs.append({"name": "below-root-%d-%s-%s" % (i, kind, cwd.count("/")), "cwd": cwd, "proj_dir": cwd, "dirs": ["app/src-tauri"],
+                    "files": files, "runs": runs, "tmpdir": r.choice(["same", "same", "other"])})
+    return scs
+
+
+def workspace_init_scenarios(rng, count):
+    """init (and later generate / build) with crate directories of arbitrary names and several crates in one
+    workspace, each with its own configuration and output directory; -g / -v / -o combinations. The run's output
+    directory is the -g argument; the other crates' outputs are pre-populated and must not change. rng=None: fixed sweep."""
+    scs = []
+    crates = ["backend", "crates/desktop-app", "src-tauri"]
+    combos = [(c, tgt, other) for c in crates for tgt in (None, "custom.json", "./tauri.conf.json", "cfg/typegen.json")
+              for other in (False, True)]
+    for i in range(count if rng else len(combos)):
+        crate, tgt, other = combos[i] if not rng else rng.choice(combos)
+        r = rng or __import__("random").Random(1000 + i)
+        gen = r.choice(["./gen", "./ui/src/bindings", "./" + crate + "/bindings"])
+        lib = r.choice(["zod", "none"])
+        files = {"app/" + crate + "/tauri.conf.json": json.dumps({"productName": crate, "plugins": {"shell": {}}}, indent=2)}
+        dirs = ["app/cfg"] if (tgt or "").startswith("cfg/") and r.random() < 0.7 else []
+        if tgt == "./tauri.conf.json":
+            files["app/tauri.conf.json"] = json.dumps({"productName": "root", "plugins": {}})
+        cands = ["app/src/generated", "app/" + "/".join(comps(gen))]
+        if other:
+            # a second crate whose configuration generate would discover from the working directory
+            oc = "src-tauri" if crate != "src-tauri" else "other-crate"
+            files["app/" + oc + "/src/lib.rs"] = "pub fn other_crate() {}\n"
+            if oc == "src-tauri":
+                files["app/src-tauri/tauri.conf.json"] = tauri_conf("./src-tauri", "./other-gen", "none", False)
+            else:
+                files["app/tauri.conf.json"] = tauri_conf("./" + oc, "./other-gen", "none", False)
+            cands.append("app/other-gen")
+        place_candidates(r, files, cands, all_of_them=not rng)
+        a = {"p": "./" + crate, "g": gen, "v": lib, "force": r.random() < 0.7, "viz": r.random() < 0.3}
+        if tgt:
+            a["o"] = tgt
+        runs = [{"entry": "init", "variant": r.choice(["cmds", "events"]), "args": a}]
+        if r.random() < 0.6 or not rng:
+            runs.append({"entry": r.choice(["generate", "init"]), "variant": r.choice([None, "cmds2"]),
+                         "args": dict(a, v="none") if r.random() < 0.5 else {"p": "./" + crate, "o": gen}})
+        scs.append({"name": "workspace-init-%d-%s" % (i, crate.replace("/", "_")), "cwd": "app", "proj_dir": "app/" + crate,
+                    "dirs": dirs, "files": files, "runs": runs, "tmpdir": "same"})
+    return scs
+
+
 def malformed_scenarios(rng, count):
     scs = []
     kinds = ["out-is-file", "out-blocked", "no-project", "bad-json", "bad-lib-in-conf", "missing-project-path",
